@@ -1346,6 +1346,11 @@ func (g *gen) stDefer() *Node {
 				if len(f.results) > 0 && !g.on(kDeferResult) {
 					continue
 				}
+				if f.soft && g.f.noSoftExpr {
+					// (finding recover-stack-residue) the deferred call runs when the results of the function are
+					// already on the stack: a panic raised by it and recovered by an earlier defer leaves them there
+					continue
+				}
 				if f.mayRecover {
 					if !g.on(kNestedRecov) {
 						continue
